@@ -6,6 +6,7 @@ import (
 	"strings"
 	"time"
 
+	appsv1 "k8s.io/api/apps/v1"
 	corev1 "k8s.io/api/core/v1"
 	metav1 "k8s.io/apimachinery/pkg/apis/meta/v1"
 	"k8s.io/apimachinery/pkg/types"
@@ -89,6 +90,9 @@ func newWorld(rt *rapid.T, rec *evid.Rec, cfg WorldCfg) *World {
 		}
 		w.addEDS(ns, name, other, gen.ConvergentStrategy(rt, cfg.Strategy))
 	}
+	if cfg.Migration && rapid.Bool().Draw(rt, "migration") {
+		w.addMigration()
+	}
 	if cfg.Warmup > 0 {
 		n := rapid.IntRange(0, cfg.Warmup).Draw(rt, "warmupRounds")
 		for i := 0; i < n; i++ {
@@ -117,6 +121,40 @@ func (w *World) addNode() string {
 	}
 	w.C.AddNode(name, labels, taints)
 	return name
+}
+
+// addMigration declares a migration from the DaemonSet "old-ds" for the first EDS: pods owned by it,
+// and - to tell them apart - pods with the very same labels owned by another DaemonSet or by nobody.
+func (w *World) addMigration() {
+	k := w.EDS[0]
+	_ = w.C.SetEDSAnnotation(k.Namespace, k.Name, oracle.AnnOldDaemonset, "old-ds")
+	w.C.Add(&appsv1.DaemonSet{ObjectMeta: metav1.ObjectMeta{Namespace: k.Namespace, Name: "old-ds", UID: "old-ds-uid"}, Spec: appsv1.DaemonSetSpec{Selector: &metav1.LabelSelector{MatchLabels: map[string]string{"app": "agent"}}}})
+	w.C.Add(&appsv1.DaemonSet{ObjectMeta: metav1.ObjectMeta{Namespace: "ns3", Name: "old-ds", UID: "namesake-uid"}, Spec: appsv1.DaemonSetSpec{Selector: &metav1.LabelSelector{MatchLabels: map[string]string{"app": "agent"}}}})
+	ctrl := true
+	mk := func(name, node, owner, uid string) {
+		p := &corev1.Pod{ObjectMeta: metav1.ObjectMeta{Namespace: k.Namespace, Name: name, Labels: map[string]string{"app": "agent"}},
+			Spec: corev1.PodSpec{NodeName: node, Containers: []corev1.Container{{Name: "agent", Image: "old:1"}}}, Status: corev1.PodStatus{Phase: corev1.PodRunning}}
+		if owner != "" {
+			p.OwnerReferences = []metav1.OwnerReference{{APIVersion: "apps/v1", Kind: "DaemonSet", Name: owner, UID: types.UID(uid), Controller: &ctrl}}
+		}
+		w.C.Add(p)
+		w.C.Start(p.Namespace, p.Name)
+	}
+	for i, n := range w.C.Nodes() {
+		switch rapid.SampledFrom([]string{"owned", "owned", "foreign-ds", "bare", "owned+foreign", "none"}).Draw(w.rt, "migration-"+n.Name) {
+		case "owned":
+			mk(fmt.Sprintf("m%02d-a-owned", i), n.Name, "old-ds", "old-ds-uid")
+		case "foreign-ds":
+			mk(fmt.Sprintf("m%02d-z-otherds", i), n.Name, "other-ds", "other-ds-uid")
+		case "bare":
+			mk(fmt.Sprintf("m%02d-z-bare", i), n.Name, "", "")
+		case "owned+foreign":
+			mk(fmt.Sprintf("m%02d-a-owned", i), n.Name, "old-ds", "old-ds-uid")
+			mk(fmt.Sprintf("m%02d-z-otherds", i), n.Name, "other-ds", "other-ds-uid")
+		}
+	}
+	w.Facts["migration-declared"]++
+	w.C.Tracef("migration from DaemonSet old-ds declared (pods m*-owned are its own; m*-otherds / m*-bare carry the same labels but are not)")
 }
 
 func (w *World) addEDS(ns, name string, letter byte, strategy edsv1.ExtendedDaemonSetSpecStrategy) {
